@@ -1038,6 +1038,8 @@ pub fn run(
 ) -> RunOutput {
     let spec = Arc::new(spec);
     hashkeys::reseed(spec.hash_stream);
+    let _ = crate::envseam::take_counts();
+    crate::envseam::set_plan(spec.env_plan);
     hook::new_run_epoch();
     CLOCK.store(0, Ordering::Relaxed);
     let (shared, threads) = sched::new_shared(&spec, keep_log);
@@ -1169,8 +1171,13 @@ pub fn run(
             }
         }
     }
+    crate::envseam::set_plan(0);
+    let (env_reads, env_perturbed, env_keys) = crate::envseam::take_counts();
     let mut w = wlock(&world);
     let mut rec = std::mem::take(&mut w.rec);
+    rec.env_reads = env_reads;
+    rec.env_perturbed = env_perturbed;
+    rec.env_keys = env_keys;
     if want_trace {
         rec.callsigs = Some(std::mem::take(&mut w.callsigs));
     }
